@@ -188,6 +188,7 @@ class Evaluator:
     def __init__(self, registry=None, call_log=None):
         self.registry = BUILTINS if registry is None else registry
         self.call_log = call_log  # list receiving (name, [converted args]) if not None
+        self.filter_stats = None  # list receiving (children, selected) per filter application
 
     # -- queries ------------------------------------------------------------
     def query(self, q, root, current=None):
@@ -251,7 +252,11 @@ class Evaluator:
         if t == "wild":
             return self.children(loc, v)
         if t == "filter":
-            return [(l, c) for l, c in self.children(loc, v) if self.logical(sel[1], root, c)]
+            kids = self.children(loc, v)
+            out = [(l, c) for l, c in kids if self.logical(sel[1], root, c)]
+            if self.filter_stats is not None:
+                self.filter_stats.append((len(kids), len(out)))
+            return out
         raise ValueError(t)
 
     @staticmethod
